@@ -111,6 +111,22 @@ def rule_r1_r2(chk, db):
                 if df["kind"] == "assign" and df["rv"]["k"] == "cast" and "IntToInt" in df["rv"].get("ck", "") and df["rv"].get("ty") in ("u8", "u16", "u32"):
                     casts.append(b.loc(df["bi"]))
         chk.verdict(not casts, "R2", "no-as-truncation#%d" % e["bi"], casts[0] if casts else b.loc(e["bi"]), "a length is narrowed with `as` (wraps silently) at %s" % casts, nontrivial=False)
+    # width agreement: the checked narrowing in front of a length field targets exactly the width that is written (a narrower guard
+    # refuses items the format can carry; a wider one would be truncated by the write)
+    import re as _re
+    for e, what in ((ev[0], "total length"), (ev[1], "headers length"), (nm_len, "header name length"), (v_len, "header value length")):
+        m = _re.search(r"put_(u8|u16|u32|u64)", e["short"]) if "short" in e else None
+        if m is None:
+            continue
+        written = m.group(1)
+        sl = flow.backward(b, e["args"][0], at=e["bi"])
+        targets = sorted({(t["callee"].get("args") or "").strip("[]").split(",")[0].strip() for _, t, _ in sl.calls
+                          if callee_def(t) == "core::convert::TryFrom::try_from"})
+        if not targets:
+            continue        # reported by checked-narrowing / no-as-truncation
+        chk.verdict(targets == [written], "R2", "narrowing-width:" + what.replace(" ", "-"), b.loc(e["bi"]),
+                    "the %s is written as %s but its checked narrowing targets %s: items whose length fits the field are refused (or overlong ones truncated)"
+                    % (what, written, ", ".join(targets)))
     # R2 length accounting: per-header constant and fixed part.  "Per header" = a checked addition inside a closure (fold) or inside a loop of
     # the writer; "fixed" = one outside any loop.
     clo = db.nested(b, include_self=False)
@@ -347,6 +363,13 @@ def run(chk, db, tier):
     sub.rule("R1", "encoder table of the Stats and Progress payload types == model (element names, members written once from the same-named field)")
     enc = c13.ser_impls(db, c13.SER + "SerializeContent")
     sub.guard("R1", c13.rule_r1, db, load_model(), enc)
+    # prerequisite: the `:error-code` header of an error frame names the error that was raised (code <-> string tables, decided for C04)
+    sub4 = Sub(chk, "C04", only=lambda k: k.startswith("string:") or k.startswith("strings"))
+    sub4.rule("R3", "S3ErrorCode <-> wire string tables agree in both directions (the :error-code header is as_static_str of the code)")
+    def _c04_r3(c, db_):
+        from . import c04
+        return c04.rule_r3(c, db_, load_model())
+    sub4.guard("R3", _c04_r3, db)
 
 
 META = {
